@@ -5,7 +5,7 @@ which fields are ignored / have methods / ranks / ...), `sp` decides the *spelli
 that request (p = v vs p(v), string forms, attribute grouping and order).  Cases with
 the same request seed and different spelling seeds form a C14 spelling group.
 """
-import random
+import random, re
 from dinput import Attr, educe, Field, Variant, Generics, Input
 
 ALL_TRAITS = ['Debug', 'Clone', 'Copy', 'PartialEq', 'Eq', 'PartialOrd', 'Ord', 'Hash',
@@ -22,11 +22,16 @@ METHOD_PATHS = ['m', 'my_mod::m', '::my_crate::m', 'Self::m', 'self::m', 'super:
 # four PATH_FORMS through the spelling stream).  syn reads `method(P)` and the string forms with Path::parse
 # (generic arguments with or without the `::` turbofish, no qualified self) and `method = P` as an expression
 # (turbofish only, `<T as A>::f` accepted and reduced to `A::f`), so the last three are spelling dependent or refused:
-# qualified self, type-style arguments, and a malformed one.
-# The plain paths keep four fifths of the draws.  One entry has commas in its arguments (see path_form).
-METHOD_PATHS = METHOD_PATHS * 5 + [
+# qualified self, type-style arguments, and a malformed one.  One entry has commas in its arguments (see path_form).
+# A second group (tools/k1_paths.py holds the long hand-made list): short valid forms, a type-style path
+# (`Vec<u8>::new`: Path::parse takes it, the expression parser of `method = P` does not), and paths every spelling
+# refuses: arguments left open (`a::<`, `a::<u8`), `a<>b`, arguments without a segment (`::<u8>`).
+# The plain paths keep about five sixths of the draws (84 of 102).
+METHOD_PATHS = METHOD_PATHS * 12 + [
     'g::m::<4>', 'Conv::<u8>::m', "h::<{ 2 + 1 }>::m", '::k::m::<-1>', "Self::m::<'static>", "m::<Vec<u8>, 3, _, true,>",
-    '<T as A>::f', 'g::m<0>', 'Conv::<u8>::']
+    '<T as A>::f', 'g::m<0>', 'Conv::<u8>::',
+    'm::<u8>', 'a::b::<T, 4>::c', 'Vec<u8>::new', "a::<'a, { 1 }>::f", 'Opt<Vec<u8>>::f::<i8>',
+    'a::<', 'a::<u8', 'a<>b', '::<u8>']
 
 class Ctx:
     def __init__(self, rng, sp, traits):
@@ -102,12 +107,21 @@ def sp_bool_param(sp, name, value):
         forms.append(name)
     return pick(sp, forms)
 
+def nv_path_ood(path):
+    """`name = path` is outside the model's domain (Syn.v: classify_angle / angle_expr) although the model decides the
+    other three spellings of the same path: commas inside the generic arguments; generic arguments still open at the
+    end of the value (more `<` than `>`: a comma that follows would belong to them -- the real macro refuses the
+    parameter either way); `a<>b`, which the expression parser reads as a comparison without a right operand."""
+    p = path.replace('->', '')
+    return ',' in path or p.count('<') > p.count('>') or re.search(r'(?<!::)<\s*>', p) is not None
+
 def path_form(k, name, path):
     """the k-th spelling of PATH_FORMS.  A path with commas in its generic arguments is not written `name = path`:
     the model's meta parser cuts a parameter list at its top-level commas before it reads the values, so that
-    spelling is OutOfDomain for it (nothing to compare; the real macro meets it in the K2 suites).  The list form
-    stands in; the spelling stream is consumed all the same."""
-    if k == 1 and ',' in path:
+    spelling is OutOfDomain for it (nothing to compare; the real macro meets it in the K2 suites; tools/k1_paths.py
+    counts these).  The same holds for the other values of nv_path_ood.  The list form stands in; the spelling stream
+    is consumed all the same."""
+    if k == 1 and nv_path_ood(path):
         k = 0
     return ['%s(%s)', '%s = %s', '%s = "%s"', '%s("%s")'][k] % (name, path)
 
